@@ -29,6 +29,9 @@ LEVEL_TEXT.update({
 LEVEL_TEXT.update({
     'C01': 'Unbounded deductive proof (Verus) for the field-splitting kernel only: Ranges::next equals a reference IFS splitter on every input, and classification marks only unquoted expansion results as separators. The statement as a whole (all expansion forms x all shell states) runs through async code and is not decided.',
 })
+LEVEL_TEXT.update({
+    'C04': 'Bounded checks (Kani) of the translation kernel on the real code: each ASCII literal is emitted as itself in both regex positions, collating symbols/equivalence classes stand for their characters, ? * and unclosed [; plus an unbounded Verus proof of make_range. Not a decision of the language equality, which is delegated to the regex engine.',
+})
 NOTE = {
     'C03': 'Trusted: Verus/Z3, vstd specs of checked arithmetic, assumed specs of checked_shl/shr/neg, Option::filter, str::parse (uninterpreted), Display for Value, the Env implementor contract. Not covered: eval()/parser structure, tokenizer, non-decimal variable values (F3).',
     'C12': 'Trusted: Verus/Z3, Kani/CBMC, assumed contracts for slab::Slab and (in Kani) a linear-scan stand-in for std HashMap; selectors assumed in Verus and bounded-checked in Kani (<= 3 slots quick); pid-reuse precondition from the property quantifier.',
@@ -40,8 +43,11 @@ NOTE.update({
 NOTE.update({
     'C01': 'Kernel only (field splitting). Trusted: Verus/Z3, vstd iterator model; IFS membership uninterpreted; reference splitter is my reading of XCU 2.6.5. Not covered: parameter expansion modifiers, nounset, $@/$* joining, quote removal, read, lexer.',
 })
+NOTE.update({
+    'C04': 'Bounded (ASCII, one-character symbols). Trusted: Kani/CBMC, Verus/Z3, regex-syntax grammar facts. Not covered: bracket parser with quoted characters (F2), non-ASCII, regex engine, trim_value, case.',
+})
 TECH = {
-    'C03': 'contract-based deductive verification (Verus, Z3) of mechanically extracted real functions',
+    'C03': 'contract-based deductive verification (Verus, Z3) of mechanically extracted real functions + loop-free Kani harnesses (complete) for binary_result',
     'C12': 'contract-based deductive verification (Verus) + Kani harness-encoded contracts (bounded) on the real crate',
 }
 
@@ -54,6 +60,11 @@ TECH.update({
 
 TECH.update({
     'C01': 'contract-based deductive verification (Verus, Z3) of the IFS splitting state machine against a reference automaton',
+})
+
+
+TECH.update({
+    'C04': 'Kani harness-encoded contracts on the real crate (bounded) + Verus contract on make_range',
 })
 
 
